@@ -443,6 +443,7 @@ class Ctx:
         self.sign = -1.0 if self.maximize else 1.0
         self.g = make_math(desc["obj"], desc["box"]["bounds"])
         self.log: list = []
+        self.prev = None  # the context of the first tree when this one reuses its configuration objects
         self.log_base = 0  # index of the first call-log entry that belongs to this tree (> 0 when a configuration is reused)
         self.monitors = list(monitors)
         self.tree = None
@@ -888,6 +889,7 @@ def run_reuse_pair(desc: dict, make_monitors, second_seed_offset=7):
         ctx2.log_base = len(ctx1.log)
         ctx2.scoped_total = len(ctx1.log)
         ctx2.stacks = ctx1.stacks
+        ctx2.prev = ctx1
         if "cfg" not in holder or ctx1.aborted:
             ctx2.aborted = ("skipped", "first tree of the pair did not complete")
             return ctx1, ctx2
